@@ -1,7 +1,7 @@
 /-
-  C03 — property theorems (and non-vacuity examples) ONLY.  Helper lemmas: `Lemmas.lean`, `ParseLemmas.lean`.
+  C03 — property theorems (and non-vacuity examples) ONLY.  Helper lemmas: `Lemmas.lean`, `ParseLemmas.lean`, `FuelLemmas.lean`.
 -/
-import YashModel.Arith.ParseLemmas
+import YashModel.Arith.FuelLemmas
 namespace YashModel.Arith
 open YashModel.Generated.ArithTables
 
@@ -179,6 +179,36 @@ theorem evalStr_never_panics (src : List Char) (env : Env) :
     | panic => exact hr.elim
     | fuel => exact hr.elim
 
+
+/-- ☆ the fuel the model hands to its tokenizer, parser and evaluator is never exhausted: every fuel above
+    the text length gives the same tokens, the parser never answers `fuel`, and (previous theorem) neither
+    does the evaluator.  So the outcomes of the model are exactly: a value, a syntax error, an evaluation
+    error — the outcomes the Rust function has when it does not panic. -/
+theorem fuel_sufficient (src : List Char) (env : Env) :
+    (∀ g, src.length < g → tokenize (src.length + 1) src = tokenize g src) ∧
+    parse src ≠ .error .fuel ∧
+    (match evalStr src env with
+      | .value _ _ => True
+      | .syntaxError e => e ≠ .fuel
+      | .evalError _ => True
+      | .panic => False
+      | .fuel => False) := by
+  refine ⟨fun g hg => tokenize_fuel_irrelevant _ g src (Nat.lt_succ_self _) hg, parse_no_fuel src, ?_⟩
+  have h1 := evalStr_never_panics src env
+  have h2 := parse_no_fuel src
+  cases h : evalStr src env with
+  | value v e => trivial
+  | syntaxError e =>
+    simp only
+    intro he; subst he
+    unfold evalStr at h
+    split at h
+    · rename_i e' hp
+      injection h with h; subst h; exact h2 hp
+    · cases hv : evalValue ‹_› env <;> simp [hv, Outcome.ofRes] at h
+  | evalError e => trivial
+  | panic => exact h1.1 h
+  | fuel => exact h1.2 h
 
 example : (parse "1+2*(a=3)".toList).toOption = some
     [.term (.value 1), .term (.value 2), .term (.variable ['a']), .term (.value 3), .binary .Assign 1,
